@@ -11,6 +11,7 @@ from concurrent.futures import ThreadPoolExecutor
 
 ENV = dict(os.environ, GOFLAGS="-mod=mod", GOPROXY="off", GOSUMDB="off", GOTOOLCHAIN="local")
 BIN = "/verif/bin/verifsa"
+PKGS = {}
 
 def sh(cmd, cwd=None, env=None):
     p = subprocess.run(cmd, shell=True, cwd=cwd, env=env or ENV, stdout=subprocess.PIPE, stderr=subprocess.STDOUT, text=True)
@@ -29,7 +30,13 @@ def one(item, claimed):
             return tag, {"applies": False, "error": out.strip()[-200:]}
         env = dict(ENV, VERIF_REPO=wt)
         alarms = {}
+        # a quick check analyses only the syntax of its own packages: a patch can only change the
+        # verdict of checks that load a package it touches
+        rc, out = sh("git diff --name-only", wt)
+        touched = {os.path.dirname(f) for f in out.split() if f.endswith(".go")}
         for p in claimed:
+            if PKGS.get(p) is not None and not (touched & PKGS[p]):
+                continue
             ev = f"/tmp/bn-ev-{tag}"
             rc, out = sh(f"{BIN} check -p {p} -tier quick -evidence {ev}", env=env)
             if rc != 0:
@@ -58,6 +65,11 @@ def main():
     global BIN
     BIN = f"/tmp/verifsa-bn-{os.getpid()}"
     shutil.copy("/verif/bin/verifsa", BIN)
+    rc, out = sh(f"{BIN} packages")
+    for l in out.splitlines():
+        parts = l.split()
+        if parts and parts[0].startswith("C"):
+            PKGS[parts[0]] = set(parts[1:])
     items = []
     for root in args:
         for d in sorted(glob.glob(os.path.join(root, "*"))):
